@@ -41,6 +41,7 @@ blen = z3.Function("bytes_len", I, I)                      # Py_SIZE of a bytes 
 bytes_of = z3.Function("bytes_of", I, z3.ArraySort(I, I))  # ob_sval[0..len] as (signed) chars
 richcmp_obj = z3.Function("richcmp_obj", I, I, I, I)        # PyObject_RichCompare(a, b, op): CPython's result object (0 = NULL)
 truth_of = z3.Function("truth_of", I, I)                    # PyObject_IsTrue(x): 1 / 0 / -1
+is_module_string_constant = z3.Function("is_module_string_constant", I, B)
 list_allocated = z3.Function("list_allocated", I, I)   # PyListObject.allocated (slots of ob_item)
 pow2u = z3.Function("pow2", I, I)          # 2**n for n beyond what the C code computes itself
 generic = z3.Function("generic_result", I, I, I, I, I, B)   # generic_result(opcode, a, b, c, r): r = CPython's own result
@@ -161,6 +162,19 @@ class CExecPyObj(CExecL3):
         return CExecL3.member_lval(self, st, n)
 
     def lval(self, st, n):
+        if n.get("kind") == "ArraySubscriptExpr" and len(n.get("inner", [])) == 2:
+            b = n["inner"][0]
+            while b.get("kind") in ("ImplicitCastExpr", "ParenExpr") and b.get("inner"):
+                b = b["inner"][0]
+            i = n["inner"][1]
+            while i.get("kind") in ("ImplicitCastExpr", "ParenExpr") and i.get("inner"):
+                i = i["inner"][0]
+            if b.get("kind") == "MemberExpr" and b.get("name") == "__pyx_string_tab" and i.get("kind") == "IntegerLiteral":
+                # a string constant of the module: an object identity per table slot, marked as a module constant
+                t = z3.Int("module_string_constant_%s" % i.get("value"))
+                st.path.append(z3.And(t >= 1, is_module_string_constant(t)))
+                self.assumptions.add("__pyx_string_tab[K]: the module's interned string constants are live str objects (one identity per slot)")
+                return ("const", Ptr(node_type(n), "pyobj", t))
         return CExecL3.lval(self, st, n)
 
     ghost_objs = {}
